@@ -240,6 +240,12 @@ def random_def(rng):
     d = mk_def(w, base, values, rng.random() < 0.45, cfgs, size=rng.choice([None, None, 16, 32]) if w <= 16 else None)
     if d["objects"][0]["size_bits"] < w:
         d["objects"][0]["size_bits"] = 8 * ((w + 7) // 8)
+    # the analysis does not depend on who can read or write the field (seed C15-7 called an enum on a write-only field
+    # infallible "because it is never read"): the field's own access, the register's, and the global defaults vary freely
+    d["objects"][0]["fields"][0]["access"] = rng.choice([None, None, "RW", "RO", "WO", "WO"])
+    d["objects"][0]["access"] = rng.choice([None, None, "RW", "RO", "WO"])
+    if rng.random() < 0.2:
+        d["config"]["default_field_access"] = rng.choice(["RW", "RO", "WO"])
     if rng.random() < 0.10:            # several enums: command in/out + nested block, first error must win in pre-order
         w2 = rng.choice([1, 2, 3, 8])
         b2, b3 = rng.choice(["uint", "uint", "int"]), rng.choice(["uint", "uint", "int"])
